@@ -10,10 +10,27 @@ where for<'a> &'a Self: EucRingOps<Self> {}
 impl<T> DivRound for T
 where T: Integer, for<'x> &'x T: IntOps<T> {
     fn div_round(&self, q: &Self) -> Self {
-        let a = self.to_f64().unwrap();
-        let b = q.to_f64().unwrap();
-        let r = (a / b).round();
-        Self::from_f64(r).unwrap()
+        // exact nearest integer to self / q, ties rounded away from zero.
+        let quo = self / q; // truncated
+        let rem = self % q; // |rem| < |q|
+        if rem.is_zero() { 
+            return quo
+        }
+
+        let r = rem.abs();
+        let round_up = if q.is_positive() { 
+            r >= q - &r       // 2|rem| >= |q|
+        } else { 
+            r >= -(q + &r)
+        };
+
+        if !round_up { 
+            quo
+        } else if self.is_negative() == q.is_negative() { 
+            quo + Self::one()
+        } else { 
+            quo - Self::one()
+        }
     }
 }
 
